@@ -160,8 +160,9 @@ func (w *c11World) run(c *c11Ctx, ops []c11Op, cfgs []c11Cfg) {
 	}
 }
 
-// c11Lists calls fn for every canonical list of exactly n operations.
-func c11Lists(n int, fn func(ops []c11Op)) {
+// c11Lists calls fn for every canonical list of exactly n operations that uses only the first m4
+// IPv4 and the first m6 IPv6 prefixes.
+func c11Lists(n, m4, m6 int, fn func(ops []c11Op)) {
 	ops := make([]c11Op, 0, n)
 	var rec func(u4, u6 int)
 	rec = func(u4, u6 int) {
@@ -178,14 +179,14 @@ func c11Lists(n int, fn func(ops []c11Op)) {
 			n4, n6 := u4, u6
 			switch p.Fam {
 			case c11V4:
-				if pi > u4 {
+				if pi > u4 || pi >= m4 {
 					continue
 				}
 				if pi == u4 {
 					n4++
 				}
 			case c11V6:
-				if pi-4 > u6 {
+				if pi-4 > u6 || pi-4 >= m6 {
 					continue
 				}
 				if pi-4 == u6 {
@@ -235,24 +236,25 @@ func TestVerif_C11_Lists(t *testing.T) {
 	r.Bounds["attribute_sets"] = "ipv4 {a1, a2, a1 with IPv6 next hop}; ipv6 {a1, a2, a1 with global+link-local}; vpnv4 {a1, a2}"
 	r.Bounds["local_path_ids"] = "1,2 (assigned by destination.Calculate: peer 1 then peer 2)"
 	r.Bounds["alphabet_letters"] = 57
-	r.Bounds["configs"] = "addpath{off,on} x extended{off,on} for lists of length <=4; addpath{off,on} x extended off for length 5"
+	r.Bounds["configs"] = "addpath{off,on} x extended{off,on} for lists of length <=4; length 5 (thorough): addpath{off,on} x extended off, over the first 3 ipv4 prefixes, the first ipv6 prefix and the vpnv4 prefix"
 	r.Bounds["symmetry"] = "prefixes of one family first appear in index order"
 	W := vr.Workers()
 	lists := map[string]int{}
 	for n := 0; n <= maxLen; n++ {
-		total := 0
-		c11Lists(n, func([]c11Op) { total++ })
-		lists[fmt.Sprint(n)] = total
-		cfgs := c11Cfgs
+		cfgs, m4, m6 := c11Cfgs, 4, 2
 		if n > 4 {
-			cfgs = c11Cfgs[:2] // extended message off; it only moves the limit, which lists this short never approach
+			// extended message only moves the limit, which lists this short never approach
+			cfgs, m4, m6 = c11Cfgs[:2], 3, 1
 		}
+		total := 0
+		c11Lists(n, m4, m6, func([]c11Op) { total++ })
+		lists[fmt.Sprint(n)] = total
 		ctxs := make([]*c11Ctx, W)
 		r.Parallel(W, func(wk int, rep *vr.Report) {
 			c := c11NewCtx(rep)
 			ctxs[wk] = c
 			i := 0
-			c11Lists(n, func(ops []c11Op) {
+			c11Lists(n, m4, m6, func(ops []c11Op) {
 				i++
 				if i%W != wk {
 					return
@@ -260,7 +262,7 @@ func TestVerif_C11_Lists(t *testing.T) {
 				c.idx = int64(i) * 4
 				w.run(c, ops, cfgs)
 				if c.WantSample() && i%(total/5+1) == wk {
-					c.Sample(c11ListCase{Part: "lists", Cfg: c11Cfgs[i%4], Ops: append([]c11Op{}, ops...), Text: c11ListText(ops)})
+					c.Sample(c11ListCase{Part: "lists", Cfg: cfgs[i%len(cfgs)], Ops: append([]c11Op{}, ops...), Text: c11ListText(ops)})
 				}
 			})
 		})
